@@ -960,7 +960,15 @@ func (rl *Shell) killRegion() {
 		return
 	}
 
+	// The point ends where the region began, so that
+	// an immediate yank puts the text back where it was.
+	bpos, _ := rl.selection.Pos()
+
 	rl.Buffers.Write([]rune(rl.selection.Cut())...)
+
+	if bpos >= 0 {
+		rl.cursor.Set(bpos)
+	}
 }
 
 // Copy the text in the region to the kill buffer.
